@@ -976,6 +976,44 @@ def layout_probes(out, rng, tier):
                                    _layout_replay(node.src, xd, yd, k, xl, yl, prop), det))
 
 
+def size_probes(out, rng, tier):
+    """Size regimes (99 / 100 / 101 / 50001 entries, 2-d 250 x 240): inner, norm, dist against NumPy on
+    closed-form integer data; replays are plain NumPy + odl."""
+    shapes = [(99,), (100,), (101,), (50001,), (250, 240)]
+    for shape, wk, p in itertools.product(shapes, ['none', 'const', 'array'], [2, 1, 3, INF]):
+        if tier == 'quick' and int(np.prod(shape)) > 1000 and (wk, p) not in (
+                ('none', 2), ('const', 2), ('array', 2), ('array', 3), ('const', INF)):
+            continue
+        psrc = "float('inf')" if p == INF else repr(float(p))
+        a, b, m = rng.choice([3, 5, 7]), rng.randint(0, 5), rng.choice([11, 13])
+        head = ("import numpy as np, odl\nshape = %r; p = %s; n = int(np.prod(shape))\n"
+                "i = np.arange(n)\nx = ((%d * i + %d) %% %d - %d).astype(float).reshape(shape)\n"
+                "y = ((5 * i + 2) %% 7 - 3).astype(float).reshape(shape)\nw = ((3 * i) %% 5 + 1.0).reshape(shape)\n"
+                "kind = %r\nkw = {} if kind == 'none' else ({'weighting': 2.5} if kind == 'const' else {'weighting': w})\n"
+                "W = np.ones(shape) if kind == 'none' else (np.full(shape, 2.5) if kind == 'const' else w)\n"
+                "sp = odl.rn(shape, exponent=p, **kw)\nX = sp.element(x); Y = sp.element(y)\n"
+                "def ref(v):\n    v = np.abs(v)\n"
+                "    return float(np.max(W * v)) if p == float('inf') else float(np.sum(W * v ** p) ** (1.0 / p))\n"
+                "cl = lambda u, v: abs(u - v) <= 1e-9 * max(1.0, abs(v))\n"
+                % (shape, psrc, a, b, m, m // 2, wk))
+        checks = {'norm': "observed = X.norm(); expected = ref(x); ok = cl(observed, expected)\n",
+                  'dist': "observed = X.dist(Y); expected = ref(x - y); ok = cl(observed, expected)\n"}
+        if p == 2:
+            checks['inner'] = "observed = X.inner(Y); expected = float(np.sum(W * x * y)); ok = cl(observed, expected)\n"
+        for prop, chk in checks.items():
+            env = {}
+            try:
+                exec(head + chk, env)
+                ok = bool(env.get('ok'))
+            except Exception as e:
+                ok = False
+                env['observed'] = repr(e)
+            pc = 'pinf' if p == INF else ('p%d' % int(p) if p in (1, 2) else 'pgen')
+            out.append(C.Probe(ok, 'tensor-%s-%s-size%d-%s' % (wk, pc, int(np.prod(shape)), prop),
+                               '%s on rn(%r), weighting %s, exponent %r vs NumPy' % (prop, shape, wk, p),
+                               head + chk, (env.get('observed'), env.get('expected'))))
+
+
 def search(rng, broken):
     """A correspondence case failed but no probe produced an input: re-evaluate the independent oracle on
     that very case (same space, data, memory layouts and exponent), then on every other layout."""
@@ -1100,6 +1138,7 @@ def probes(rng, tier):
         probe_space(out, node.src, node.space, rng, cplx=True)
     # memory layouts (C / F / wrapped Fortran / transposed / strided) x array weights x exponents
     layout_probes(out, rng, tier)
+    size_probes(out, rng, tier)
     # the switches derived from the source text agree with the behaviour measured on the findings' inputs
     gen = translate()['Gen/Weighting.v']
     q = quirks()
